@@ -1027,6 +1027,40 @@ def main():
         out.append("Definition MLA_STATUS_untranslatable : unit := tt.")
     out.append("")
 
+    # ---- C bindings, reading side (C20, work package capiread): the whence codes of the three
+    # SeekFrom arms, the u32 clamp of the read adapter, `iter.sort()` before the callback loop
+    try:
+        capi = read("bindings/C/src/lib.rs")
+        m = re.search(r"impl Seek for CallbackInputRead \{(.*?)\n\}\n", capi, re.S)
+        if not m:
+            raise ParseError("impl Seek for CallbackInputRead not found")
+        sbody = m.group(1)
+        w0 = re.search(r"SeekFrom::Start\(n\) => \(\s*(\d+),\s*i64::try_from\(n\)", sbody)
+        w1 = re.search(r"SeekFrom::Current\(n\) => \((\d+), n\)", sbody)
+        w2 = re.search(r"SeekFrom::End\(n\) => \((\d+), n\)", sbody)
+        if not (w0 and w1 and w2) or len(re.findall(r"SeekFrom::\w+\(n\) =>", sbody)) != 3:
+            raise ParseError("SeekFrom arms of CallbackInputRead::seek")
+        m = re.search(r"impl Read for CallbackInputRead \{(.*?)\n\}\n", capi, re.S)
+        if not m:
+            raise ParseError("impl Read for CallbackInputRead not found")
+        cl = re.search(r"let len = u32::try_from\(buf\.len\(\)\)\.map_or\(u32::MAX - (\d+), \|n\| n\);", m.group(1))
+        if not cl or not re.search(r"\n\s*0 => Ok\(len_read as usize\),", m.group(1)):
+            raise ParseError("clamp / Ok arm of CallbackInputRead::read")
+        m = re.search(r"\nfn mla_roarchive_extract_internal.*?\n\}\n", capi, re.S)
+        if not m:
+            raise ParseError("mla_roarchive_extract_internal not found")
+        xb = m.group(0)
+        i_sort, i_loop = xb.find("iter.sort();"), xb.find("for fname in &iter")
+        if i_loop < 0:
+            raise ParseError("callback loop of mla_roarchive_extract_internal")
+        out.append("Definition CAPI_SEEK_WHENCE : list N := [%s; %s; %s]." % (w0.group(1), w1.group(1), w2.group(1)))
+        out.append("Definition CAPI_READ_CLAMP : N := %d." % (2 ** 32 - 1 - int(cl.group(1))))
+        out.append("Definition CAPI_SORT_BEFORE_CALLBACKS : bool := %s." % ("true" if 0 <= i_sort < i_loop else "false"))
+    except Exception as e:  # fail closed
+        out.append("(* C bindings, reading side: %s *)" % e)
+        out.append("Definition CAPI_READ_SIDE_untranslatable : unit := tt.")
+    out.append("")
+
     text = "\n".join(out) + "\n"
     outp = os.path.normpath(OUT)
     os.makedirs(os.path.dirname(outp), exist_ok=True)
